@@ -29,6 +29,8 @@ const probeTicks = 8 // 8 harness ticks of 50 ms = 400 check intervals without a
 type LPScript struct {
 	Shape   string // shutdown-of-unstarted-sibling | restart-after-full-shutdown | reload-with-new-equal-config-object (judged)
 	Signals [2]string
+	// CancelCtx: every Start gets a context that is cancelled right after Start returned.
+	CancelCtx bool
 }
 
 func runLP(s LPScript) (observed bool, f *vt.Finding) {
@@ -46,12 +48,16 @@ func runLP(s LPScript) (observed bool, f *vt.Finding) {
 		return false, vt.Failf("harness/new", "create: %v %v", errA, errB)
 	}
 	host := componenttest.NewNopHost()
-	if err := a.comp.Start(ctx, host); err != nil {
+	if err := startComp(a.comp, host, s.CancelCtx); err != nil {
 		return false, vt.Failf("harness/start", "Start: %v", err)
 	}
 	if !src.awaitCheck(src.setLevel(0, 0), stallTicks) {
 		_ = a.comp.Shutdown(ctx)
-		return false, vt.Failf("checker/not-running-while-started", "probe baseline: no check within %d harness ticks", stallTicks)
+		sg := "checker/not-running-while-started"
+		if s.CancelCtx {
+			sg = "checker/stops-when-start-context-is-cancelled"
+		}
+		return false, vt.Failf(sg, "probe baseline (Start context cancelled after Start returned: %v): no check within %d harness ticks", s.CancelCtx, stallTicks)
 	}
 	switch s.Shape {
 	case "shutdown-of-unstarted-sibling":
@@ -67,7 +73,7 @@ func runLP(s LPScript) (observed bool, f *vt.Finding) {
 		if err := a.comp.Shutdown(ctx); err != nil {
 			return false, vt.Failf("refcount/shutdown-error", "Shutdown(A): %v", err)
 		}
-		if err := b.comp.Start(ctx, host); err != nil {
+		if err := startComp(b.comp, host, s.CancelCtx); err != nil {
 			return false, vt.Failf("refcount/start-error", "Start(B) after Shutdown(A): %v", err)
 		}
 		alive := src.awaitCheck(src.setLevel(90*mib, 90*mib), probeTicks)
@@ -90,7 +96,7 @@ func runLP(s LPScript) (observed bool, f *vt.Finding) {
 		if errN != nil {
 			return false, vt.Failf("harness/new", "create: %v", errN)
 		}
-		if err := n.comp.Start(ctx, host); err != nil {
+		if err := startComp(n.comp, host, s.CancelCtx); err != nil {
 			return false, vt.Failf("refcount/start-error", "Start(N) after Shutdown(A): %v", err)
 		}
 		defer func() { _ = n.comp.Shutdown(ctx) }()
@@ -131,7 +137,7 @@ func TestLifecycleProbes(t *testing.T) {
 	}
 	for _, shape := range []string{"reload-with-new-equal-config-object", "shutdown-of-unstarted-sibling", "restart-after-full-shutdown"} {
 		for _, sg := range [][2]string{{sig.Logs, sig.Traces}, {sig.Metrics, sig.Metrics}} {
-			s := LPScript{Shape: shape, Signals: sg}
+			s := LPScript{Shape: shape, Signals: sg, CancelCtx: sg[0] == sig.Metrics}
 			observed, f := runLP(s)
 			cLP.Eval(true, fmt.Sprint(s))
 			cLP.Class("shape:" + shape)
